@@ -34,9 +34,9 @@ func (c *Ctx) stageRoots() []*ssa.Function {
 
 // functions whose blocking operations are covered by another rule or are out of scope, with the reason.
 var c11Exempt = map[string]string{
-	"trzszBuffer.nextBuffer":       "the buffer wait: its arms are checked by C11-R2",
-	"traceLogger.writeTraceLog":    "trace log (debug only): send on a 10000-slot channel drained by a dedicated goroutine",
-	"traceLogger.writeTraceLog$1":  "trace log writer goroutine, not part of a transfer",
+	"trzszBuffer.nextBuffer":             "the buffer wait: its arms are checked by C11-R2",
+	"traceLogger.writeTraceLog":          "trace log (debug only): send on a 10000-slot channel drained by a dedicated goroutine",
+	"traceLogger.writeTraceLog$1":        "trace log writer goroutine, not part of a transfer",
 	"trzszTransfer.switchToBackground$1": "fork-to-background helper, not a stage",
 }
 
@@ -85,11 +85,11 @@ func chanName(v ssa.Value) string {
 
 // bareSendTable: single-shot sends on buffered channels accepted without a Done arm (proof sketch each).
 var bareSendTable = map[string]string{
-	"trzszTransfer.pipelineCalculateMD5$1/md5DigestChan":    "capacity 1, one send then the goroutine ends",
-	"trzszTransfer.pipelineRecvFinalAck/succ":               "capacity 1, sent once then break; the only sender on the sending side",
-	"trzszTransfer.pipelineSendAck$1/succ":                  "capacity 1, sent once then break; the only sender on the receiving side",
-	"trzszTransfer.pipelineSaveData$1/ackImmediatelyChan":   "capacity 1, one send then the goroutine ends",
-	"trzszTransfer.pipelineRecvHashAck$1/matchChan":         "capacity 1, each send is followed by return",
+	"trzszTransfer.pipelineCalculateMD5$1/md5DigestChan":  "capacity 1, one send then the goroutine ends",
+	"trzszTransfer.pipelineRecvFinalAck/succ":             "capacity 1, sent once then break; the only sender on the sending side",
+	"trzszTransfer.pipelineSendAck$1/succ":                "capacity 1, sent once then break; the only sender on the receiving side",
+	"trzszTransfer.pipelineSaveData$1/ackImmediatelyChan": "capacity 1, one send then the goroutine ends",
+	"trzszTransfer.pipelineRecvHashAck$1/matchChan":       "capacity 1, each send is followed by return",
 }
 
 func c11R1(c *Ctx) {
